@@ -10,7 +10,7 @@ theorem mul_small {t L d : Int} (hL : 0 < L) (h : d = t * L) (h1 : -L < d) (h2 :
   · have : 1 * L ≤ t * L := Int.mul_le_mul_of_nonneg_right (by omega) (by omega)
     omega
 
-theorem list_ext_getD (a b : List Int) (hl : a.length = b.length) (h : ∀ i, i < a.length → a.getD i 0 = b.getD i 0) :
+theorem p2_list_ext_getD (a b : List Int) (hl : a.length = b.length) (h : ∀ i, i < a.length → a.getD i 0 = b.getD i 0) :
     a = b := by
   apply List.ext_getElem hl
   intro i h1 h2
@@ -47,11 +47,11 @@ theorem target_base_inj (l : Lat) (hne : l.Ls ≠ []) (hbc : l.bc.length = l.Ls.
     · omega
     · rw [this] at hd; omega
   have hks : ks = ks' := by
-    apply list_ext_getD _ _ (by omega)
+    apply p2_list_ext_getD _ _ (by omega)
     intro i hi
     exact (htail i (by omega)).1
   subst hks
-  apply list_ext_getD _ _ (by rw [g1, g1'])
+  apply p2_list_ext_getD _ _ (by rw [g1, g1'])
   intro a ha
   rw [g1] at ha
   cases a with
